@@ -37,6 +37,7 @@ type scenario struct {
 	Mode      string // "full" close or "half" close (CloseWrite, keep reading)
 	DialErr   bool
 	ShortRead bool // proxy-side reads are short-read choice points
+	PingPong  bool   // request/response conversation: each side sends its next chunk only after the other's previous chunk has arrived
 	Route     string // "" direct dial; "downstream": via a downstream proxy; "downstream-coalesced": its 200 shares a segment with the first target bytes
 }
 
@@ -44,7 +45,7 @@ func (s scenario) String() string {
 	if s.DialErr {
 		return "dial-error"
 	}
-	return fmt.Sprintf("head=%d c=%v t=%v first=%s/%s short=%v route=%s", s.Head, s.CChunks, s.TChunks, s.Initiator, s.Mode, s.ShortRead, s.Route)
+	return fmt.Sprintf("head=%d c=%v t=%v first=%s/%s short=%v pingpong=%v route=%s", s.Head, s.CChunks, s.TChunks, s.Initiator, s.Mode, s.ShortRead, s.PingPong, s.Route)
 }
 
 func payload(tag byte, sizes []int) [][]byte {
@@ -121,7 +122,7 @@ func run(sc scenario) (body func(), check func(r *vrt.Result) []finding) {
 		return s
 	}
 	// endpoint behaviour shared by both sides
-	runSide := func(s *side, out [][]byte, initiator bool, r io.Reader) {
+	runSide := func(s *side, out [][]byte, initiator bool, r io.Reader, need []int) {
 		finish := func() {
 			if s.readDone && s.wrDone && !s.closed {
 				s.closed = true
@@ -129,7 +130,11 @@ func run(sc scenario) (body func(), check func(r *vrt.Result) []finding) {
 			}
 		}
 		wt := vrt.GoNamed(s.name+"-writer", func() {
-			for _, ch := range out {
+			for k, ch := range out {
+				if sc.PingPong && k < len(need) {
+					n := need[k]
+					vrt.WaitUntil("await-peer-data", func() bool { return len(s.got) >= n || s.readDone })
+				}
 				if _, err := s.conn.Write(ch); err != nil {
 					s.wrErr = err
 					break
@@ -205,7 +210,19 @@ func run(sc scenario) (body func(), check func(r *vrt.Result) []finding) {
 					}
 					rd = br
 				}
-				runSide(ts, out, sc.Initiator == "target", rd)
+				// ping-pong: the target answers chunk k of the client
+				var need []int
+				tot := 0
+				for k := range sc.TChunks {
+					if k < len(sc.CChunks) {
+						tot += sc.CChunks[k]
+					}
+					need = append(need, tot)
+				}
+				if len(out) < len(sc.TChunks) {
+					need = need[len(sc.TChunks)-len(out):]
+				}
+				runSide(ts, out, sc.Initiator == "target", rd, need)
 			})
 			return a, nil
 		})
@@ -258,7 +275,19 @@ func run(sc scenario) (body func(), check func(r *vrt.Result) []finding) {
 				cl.C.Close()
 				return
 			}
-			runSide(cs, rest, sc.Initiator == "client", br)
+			// ping-pong: the client sends chunk k after the target's chunk k-1 arrived
+			var need []int
+			tot := 0
+			for k := range sc.CChunks {
+				if k > 0 && k-1 < len(sc.TChunks) {
+					tot += sc.TChunks[k-1]
+				}
+				need = append(need, tot)
+			}
+			if len(rest) < len(sc.CChunks) {
+				need = need[len(sc.CChunks)-len(rest):]
+			}
+			runSide(cs, rest, sc.Initiator == "client", br, need)
 		})
 		vrt.WaitQuiescent()
 		prompt = takeSnap()
@@ -310,6 +339,9 @@ func run(sc scenario) (body func(), check func(r *vrt.Result) []finding) {
 		}
 		if sc.Route != "" {
 			tag += ":" + sc.Route
+		}
+		if sc.PingPong {
+			tag += ":pingpong"
 		}
 		// integrity: whatever arrived is a prefix of what was sent (exactly once, in order)
 		if !bytes.HasPrefix(C, ts.got) {
@@ -437,6 +469,18 @@ func scenarios(tier string) []scenario {
 			for _, in := range []string{"client", "target"} {
 				for _, mode := range []string{"full", "half"} {
 					out = append(out, scenario{Head: head, CChunks: []int{1, 2}, TChunks: []int{3, 1}, Initiator: in, Mode: mode, Route: route})
+				}
+			}
+		}
+	}
+	// conversations: nobody closes before the whole exchange has happened, each chunk answers the previous one
+	for _, route := range []string{"", "downstream", "downstream-coalesced"} {
+		for _, head := range []int{0, 1, 3} {
+			for _, in := range []string{"client", "target"} {
+				for _, mode := range []string{"full", "half"} {
+					for _, sizes := range [][2][]int{{{1, 2}, {3, 1}}, {{2, 1, 1}, {1, 1}}, {{300}, {5000}}} {
+						out = append(out, scenario{Head: head, CChunks: sizes[0], TChunks: sizes[1], Initiator: in, Mode: mode, Route: route, PingPong: true})
+					}
 				}
 			}
 		}
